@@ -550,7 +550,7 @@ void prop_main(const Case& cs) { dispatch(cs, false); }
 void prop_large(const Case& cs) { dispatch(cs, true); }
 
 // ---------------------------------------------------------------- generators
-rc::Gen<int64_t> slot_gen() { return vf::pick({0, 0, 0, 1, 1, 2, 3}); }
+rc::Gen<int64_t> slot_gen() { return vf::pick({0, 0, 0, 1, 1, 1, 2, 3}); }
 
 rc::Gen<Case> gen_main() {
   using namespace vf;
@@ -558,7 +558,7 @@ rc::Gen<Case> gen_main() {
       {5, op4("upd", slot_gen(), range(0, 1 << 12), range(0, 1 << 16), range(0, 1))},
       {4, op4("bulk", slot_gen(), range(0, 9), rc::gen::withSize([](int s) { return range(0, 20 + 30 * s); }), range(0, 1 << 30))},
       {3, op4("bulk", slot_gen(), range(0, 9), range(0, 60), range(0, 1 << 30))},
-      {4, op3("merge", slot_gen(), slot_gen(), range(0, 2))},
+      {5, op3("merge", slot_gen(), slot_gen(), range(0, 2))},
       {2, op3("ser", slot_gen(), range(0, 2), range(0, 39))},
       {1, op3("dup", slot_gen(), slot_gen(), range(0, 2))},
       {1, op2("fi", slot_gen(), range(0, 1 << 20))},
@@ -570,7 +570,7 @@ rc::Gen<Case> gen_main() {
   return make_case({{"ttype", range(0, 1)}, {"wtype", range(0, 2)}, {"keymode", pick({0, 0, 1, 2, 2})}, {"cwin", pick({2, 6, 16})},
                     {"lg0", lg()}, {"lg1", lg()}, {"lg2", lg()}, {"lg3", lg()},
                     {"st0", range(0, 10)}, {"st1", range(0, 10)}, {"st2", range(0, 10)}, {"st3", range(0, 10)}},
-                   oplist(opg, 3, 0.3));
+                   oplist(opg, 4, 0.5));
 }
 
 // maps larger than the purge sample (lg_max 11, 12): the median is taken over the first 1024 active cells only
